@@ -322,6 +322,10 @@ func (root *Root) ParseReader(r io.Reader) error {
 	// revert to the original version.
 	origTypes := root.types
 	origDirs := root.dirs
+	origSchema := root.schema
+	// A schema that was not declared is derived from the Query, Mutation and
+	// Subscription types and has to follow them.
+	derived := origSchema != nil && origTypes.get("") == nil
 	root.types = origTypes.dup()
 	root.dirs = origDirs.dup()
 
@@ -333,12 +337,19 @@ func (root *Root) ParseReader(r io.Reader) error {
 		err = root.addExtends(extends...)
 	}
 	if err == nil {
-		root.assureSchema()
+		if derived && root.schema == origSchema {
+			root.schema = nil
+			root.assureSchema()
+			root.schema.Dirs = origSchema.Dirs
+		} else {
+			root.assureSchema()
+		}
 		err = root.validate()
 	}
 	if err != nil {
 		root.types = origTypes
 		root.dirs = origDirs
+		root.schema = origSchema
 	}
 	return err
 }
